@@ -17,7 +17,8 @@
         same key overwrites in place, a new key is appended).  The href itself
         ("Pictures/" + uuid4 + extension, or the caller's name) is an input of the model: uuid4 is an
         injected fresh-name oracle, `mimetypes.guess_*` is not modelled.
-  * `addThumbnail`                   → field `thumbnail`
+  * `addThumbnail`                   → field `thumbnail` (bytes + the `_thumbnail_mediatype` attribute that `load` sets
+        since f4df084; "" when the attribute is absent; `addThumbnail` itself never touches it)
   * `addObject`                      → `attachIn` / `step` (history model for C16): the child is appended
         to `childobjects`, its `folder` becomes `parent.folder + "/Object %d" % len(childobjects)`
         (the parent's folder AT THAT TIME) or the explicit name; returned reference "." + folder.
@@ -150,6 +151,13 @@ structure Extra where
   content : Option Bytes
 deriving DecidableEq, Repr
 
+/-- `thumbnail` together with `getattr(self, '_thumbnail_mediatype', u'')` (only `load` sets the latter, and only
+    together with the former) -/
+structure Thumb where
+  content : Bytes
+  mediatype : Str
+deriving DecidableEq, Repr
+
 /-- `OpenDocument` as far as the package layer reads it.  `id` is a ghost identity (it names the
     document whose XML parts a member holds). -/
 structure Doc where
@@ -157,7 +165,7 @@ structure Doc where
   mimetype : Str
   hasSettings : Bool          -- `settings.hasChildNodes()`
   pictures : List Pic         -- `Pictures.items()` in insertion order
-  thumbnail : Option Bytes
+  thumbnail : Option Thumb
   extras : List Extra         -- `_extra`
   folder : Str                -- the `folder` attribute (written by addObject, NOT read by save)
   children : List Doc         -- `childobjects`
@@ -242,9 +250,9 @@ def savePicsKids (F : Str) (k : Nat) : List Doc → Out
   | c :: cs => savePics (F ++ objPrefix k) c ++ savePicsKids F (k+1) cs
 end
 
-def thumbOut : Option Bytes → Out
+def thumbOut : Option Thumb → Out
   | none => Out.empty
-  | some b => emM ⟨sThumbDir, [], true⟩ ++ emFile sThumb .deflated (.bytes b) []
+  | some t => emM ⟨sThumbDir, [], true⟩ ++ emFile sThumb .deflated (.bytes t.content) t.mediatype
 
 def extraOut (e : Extra) : Out :=
   if e.filename = sDocSig then Out.empty
@@ -410,7 +418,7 @@ def isRegenerated (m : Str) : Bool := m == sSlash || m == sThumbDir || m == sMim
 /-- accumulated state of the dispatch loop of `load` -/
 structure LoadSt where
   pics : List Pic
-  thumb : Option Bytes
+  thumb : Option Thumb
   kids : List Doc
   extras : List Extra
 deriving Repr
@@ -429,7 +437,7 @@ def loadEntry (p : Package) (keys : List Str) (s : LoadSt) (e : Str × Str) : Op
     | none => none
   else if m == sThumb then
     match zread p.members m with
-    | some b => some { s with thumb := some b }
+    | some b => some { s with thumb := some ⟨b, e.2⟩ }     -- (fix f4df084) the media type travels
     | none => none
   else if isXmlPart m then some s
   else if isRegenerated m then some s        -- (fix 87ffca7) written afresh by save()
